@@ -63,6 +63,7 @@ fn run_mp4(args: &[&str]) -> String {
     match rd {
         "strict" => show(mp4san::sanitize_with_config(Sparse::new(len, exts, true), cfg)),
         "lenient" => show(mp4san::sanitize_with_config(Sparse::new(len, exts, false), cfg)),
+        "vseek" => show(mp4san::sanitize_with_config(mp4san::SeekSkipAdapter(lib_readers::SparseSeek(Sparse::new(len, exts, false))), cfg)),
         "cursor" => {
             let v = Sparse::new(len, exts, false).dense();
             show(mp4san::sanitize_with_config(std::io::Cursor::new(v), cfg))
